@@ -612,6 +612,9 @@ package variants
 //
 // ---- package-level values (established by the package initialiser, never written afterwards) -------------------
 //@ globalinv Empty != nil && allocated(Empty) && vinv(Empty) && Empty.typ == Null
+// the one Null value every parser puts into the non-constant tokens it compiles: handed on to every instance (ownership scan)
+//@ shared Empty evaluation reads it only (every Evaluate* is proved `assigns nothing`) and no function of the module takes a
+//@     token's or a stack value's variant as the target of a setter; a caller who mutates a value it was handed is outside C19
 //@ func init
 //@   requires !initrun()
 //@   ensures Empty != nil && vinv(Empty) && Empty.typ == Null
